@@ -25,7 +25,8 @@ ASSUMPTIONS = [
     "s ~ 0.2, b ~ 0.9 (inside / outside every mobility cutoff); base positions, s and b are multiples of 2^-20 picked by "
     "VERIF_SEED, so all displacements are exact in binary floating point; nothing is claimed about other real values",
     "evenly spaced timesteps 500+100k for Dynamics, 500+{0,1,10,100,1000} for LogDynamics, dt = 0.002 (C06.scale also (dt, step) = (0.001, 300), (0.005, 7))",
-    "selections are boolean masks with the same number of selected particles in every frame (otherwise N in chi4 is undefined)",
+    "chi4 is compared only for selections with the same number of selected particles in every frame (otherwise its N is undefined); "
+    "selections whose size changes per frame are compared in every other column (per-origin means averaged over the origins)",
     "neighbour files are written by the harness (k nearest by minimum image, k = 1, 2, or ragged: 1 / 2 nearest alternating; every particle has >= 1 neighbour); "
     "the file is an input, the neighbour search itself is C05's subject",
     "wrapped == unwrapped is claimed (and generated) only for trajectories whose displacements stay below L/2 (4 steps of b < 4)",
@@ -212,6 +213,12 @@ class World:
         elif sel == "vary":
             # a different particle is left out in every frame (constant count N-1)
             m = [[i != (t % self.N) for i in range(self.N)] for t in range(T)]
+        elif sel == "count":
+            # the NUMBER of selected particles changes from frame to frame (1, 2, .., N, 1, ..): every origin contributes its own
+            # per-origin mean (mean of means, not a pooled mean); chi4's N is undefined then and X4_Qt is not compared
+            m = [[i <= (t % self.N) for i in range(self.N)] for t in range(T)]
+        elif sel == "countdown":
+            m = [[i >= (t % self.N) for i in range(self.N)] for t in range(T)]
         else:
             m = [self.masks[self.case.get("mask0", 0)]] + [self.masks[ev[self.N]] for ev in hist]
         return xs, m
@@ -264,12 +271,14 @@ def log_steps(T):
     return [500 + LOGSTEPS[t] for t in range(T)]
 
 
-def table_diff(obs, ref, skipq):
+def table_diff(obs, ref, skipq, skipx4=False):
     """First differing (row, column) or None."""
     if obs.shape != ref.shape:
         return ("shape", -1, obs.shape, ref.shape)
     for j, c in enumerate(COLS):
         if skipq and c in ("Qt", "X4_Qt"):
+            continue
+        if skipx4 and c == "X4_Qt":
             continue
         a_, b_ = obs[:, j], ref[:, j]
         ok = np.isclose(a_, b_, rtol=1e-9, atol=1e-11, equal_nan=True)
@@ -342,7 +351,7 @@ def run_relax(case):
             obs = res.values.astype(float)
             skipq = margin < RD.CUT_MARGIN
             skipped_q += int(skipq)
-            df = table_diff(obs, ref, skipq)
+            df = table_diff(obs, ref, skipq, skipx4=(cls == "lin" and len(nsel) > 1))
             rows += ref.shape[0]
             if df is not None:
                 nfail += 1
@@ -530,7 +539,13 @@ def gen_selection(tier, seed):
     yield from roots(S, 3, 3, 3, "joint", "bulk", {"sel": "event"}, ["lin"], maskc=2)
     yield from roots(S, 2, 2, 3, "pp", "bulk", {"sel": "event"}, ["lin"], maskc=1)
     yield from roots(S, 3, 2, 3, "joint", "tri", {"sel": "event", "neigh": 1}, ["lin"], maskc=2)
+    # selections whose SIZE changes from frame to frame (statement: "selections (per-frame boolean masks)")
+    yield from roots(S, 3, 2, 4, "joint", "bulk", {"sel": "count"}, ["lin", "log"])
+    yield from roots(S, 3, 3, 3, "joint", "bulk", {"sel": "countdown", "cal": "fast"}, ["lin"])
+    yield from roots(S, 3, 2, 3, "joint", "tri", {"sel": "countdown", "neigh": 3}, ["lin"])
     if tier == "thorough":
+        yield from roots(S, 4, 2, 4, "joint", "tri", {"sel": "count", "neigh": 1}, ["lin", "log"])
+        yield from roots(S, 3, 2, 5, "joint", "bulk", {"sel": "countdown"}, ["lin"])
         yield from roots(S, 3, 2, 3, "pp", "bulk", {"sel": "event"}, ["lin"], maskc=2)
         yield from roots(S, 3, 2, 5, "joint", "bulk", {"sel": "event"}, ["lin"], maskc=2)
         yield from roots(S, 4, 2, 4, "joint", "tri", {"sel": "event", "neigh": 2}, ["lin"], maskc=2)
